@@ -105,3 +105,27 @@ CHECKS["C03"] = {
                   "positions incl. >= 256) must be an error.",
     "level_note": "Held on the executed batches only. Trusted: refbp, harness pool construction.",
 }
+
+CHECKS["C04"] = {
+    "title": "Fiat-Shamir binding",
+    "level": "exploration",
+    "technique": "runtime monitoring at the merlin API boundary (event-logging copy of merlin): trace-containment specification checked online per call + differential challenge-dependency oracle under single-datum perturbations, single proofs and batches",
+    "design_ref": "DESIGN.md section 4 C04",
+    "legs": [{"name": "fm", "shards": 16}, {"name": "ris", "shards": 16}],
+    "rule": "trace cases: one prover or verifier call (or batch) whose merlin events were captured and checked against the containment specification "
+            "(every datum appended to the caller's transcript lineage before the first challenge that must depend on it); differential cases: one "
+            "(instance, single-datum perturbation) pair whose challenge sequences were compared position by position; non-trivial = all challenges were drawn in both runs; "
+            "distinct = distinct (group, instance, perturbation name)",
+    "require": {"quick": {"prover_traces": 150, "verifier_traces": 150, "batch_traces": 80, "perturbation_pairs": 6000, "challenge_pairs_compared": 50000, "data_items_checked": 10000},
+                "thorough": {"prover_traces": 2500, "verifier_traces": 2500, "batch_traces": 700, "perturbation_pairs": 100000, "challenge_pairs_compared": 1000000, "data_items_checked": 200000}},
+    "assumptions": COMMON_ASSUMPTIONS + [
+        "integers (bit length, degree, aggregation, promise) are recognised in the trace by their little-endian value in an append of at most 8 bytes, points by their 32-byte encoding; labels are not part of this check (C19 pins the layout)",
+        "prover side is decided by trace containment; the differential oracle runs on the verifier (the prover's first message changes with any input anyway)",
+    ],
+    "level_text": "Observes every byte string appended to and every challenge drawn from merlin transcripts during real prove and verify calls. Online "
+                  "trace specification: H, each G_k, n, degree, m, every commitment, every promise and A before y; L_j, R_j before e_j; A1, B before the "
+                  "final e; all on the transcript the caller supplied for that proof (batch members on their own). Differential oracle: after changing exactly "
+                  "one datum (context, H, G_k, bit length, commitment, promise, A, L_j, R_j, A1, B) every challenge drawn after its absorption differs and every "
+                  "earlier one is equal; None <-> Some(0) leaves all equal; re-verification under a changed context is rejected.",
+    "level_note": "Held on the executed calls. Trusted: the probe (a verbatim copy of merlin 3.0.0 whose STROBE operations are untouched).",
+}
